@@ -40,7 +40,7 @@ func VC03_Decision() {
 	L := rt.Param("L")
 	routeKind := rt.Choice("route", 4)   // 0 none, 1 own only, 2 own+next, 3 next only
 	toKind := rt.Choice("tohost", 5)     // 0 exact static route, 1 wildcard, 2 only default, 3 none, 4 wildcard whose pattern sorts after the word "default"
-	ruriKind := rt.Choice("ruri", 8)     // 0 literal, 1 regex-only, 2 user@host name, 3 urn, 4 tel, 5 listener addr:port, 6 foreign, 7 another user at the named host
+	ruriKind := rt.Choice("ruri", 10)    // 0 literal, 1 regex-only, 2 user@host name, 3 urn, 4 tel, 5 listener addr:port, 6 foreign, 7 another user at the named host, 8/9 a plain (metacharacter-free) name found inside a longer URI
 	keep := rt.Bool("keep-next-hop")
 	routes := [][3]string{{"udp", "static.example.org", "10.0.5.1:5071"}, {"tcp", "*.wild.example.org", "10.0.5.2"}, {"tcp", "sip*.late.example.org", "10.0.5.4:5074"}}
 	// a default entry is the answer for kind 2 and must not matter when a better entry matches
@@ -119,6 +119,12 @@ func VC03_Decision() {
 	case 7:
 		user, host = rt.Str("ruser", clsUser, 1, L), "named.example.com"
 		rt.Assume(user != "bob")
+	case 8:
+		// a configured name is also a regular expression: "urn:service:sos" is found in a longer urn
+		sip, ruri = false, "urn:service:sos."+rt.Str("subservice", "[a-z]", 1, L)
+	case 9:
+		// ... and "svc.example.com" (its dots match any byte) inside a longer host name
+		user, host = rt.Str("ruser", clsUser, 1, L), rt.Str("hostprefix", "[a-z]", 1, L)+".svc"+rt.Str("anybyte", "[a-z.-]", 1, 1)+"example.com"
 	}
 	if sip {
 		ruri = "sip:" + user + "@" + host
